@@ -185,7 +185,7 @@ func genRun(r *lib.Rand, k int) input {
 		switch {
 		case r.Chance(14):
 			in.Events = append(in.Events, hookEvent{K: "hup"})
-		case !seconds && r.Chance(8):
+		case !seconds && !in.Ticks && r.Chance(8): // (a foreign create is three system calls: not atomic w.r.t. a concurrent tick)
 			in.Events = append(in.Events, hookEvent{K: "touch", ID: r.Intn(4), Body: base64.StdEncoding.EncodeToString([]byte(fmt.Sprintf("foreign-%d\n", i)))})
 		case midInterval && r.Chance(25):
 			in.Events = append(in.Events, hookEvent{K: "sleep", Ms: 900})
@@ -535,7 +535,7 @@ func runScript(bin string, in input, scratch string) ([]lib.Case, string) {
 		tags = append(tags, "op="+kk)
 	}
 	final := "None"
-	if lastDone != nil && tr.ExitCode == 0 {
+	if lastDone != nil && tr.ExitCode == 0 && !in.Ticks { // with the ticker on, a tick may run after the last reading
 		final = fmt.Sprintf("(Some (%s, %d, %s))", lib.CoqBytes([]byte(fmt.Sprint(lastDone["filename"]))), num(lastDone, "rev"), lib.CoqZ(num(lastDone, "filesize")))
 	}
 	exit := tr.ExitCode
